@@ -4,6 +4,7 @@ import (
 	"encoding/json"
 	"fmt"
 	"strings"
+	"sync/atomic"
 	"testing"
 	"time"
 
@@ -85,7 +86,7 @@ func genC18(t *rapid.T) *c18Scenario {
 		sc.LateWhat = rapid.SampledFrom([]string{"all", "ssl"}).Draw(t, "late_what")
 	}
 	sc.Chatty = rapid.Bool().Draw(t, "chatty")
-	sc.Measure = rapid.IntRange(0, 3).Draw(t, "measure") == 0
+	sc.Measure = rapid.IntRange(0, 7).Draw(t, "measure") == 0
 	if rapid.IntRange(0, 3).Draw(t, "backlog") == 0 {
 		sc.Backlog = rapid.SampledFrom([]int{20, 33, 40, 80}).Draw(t, "backlog_n")
 	}
@@ -342,12 +343,7 @@ func runC18(sc *c18Scenario) *Violation {
 				w := conn.Written()
 				return strings.Count(w, "\r\nPING :") + boolInt(strings.HasPrefix(w, "PING :"))
 			}
-			quietPings := -1
-			if sc.Chatty && sc.Measure {
-				p0 := countPings()
-				time.Sleep(250 * time.Millisecond)
-				quietPings = countPings() - p0
-			}
+			var chatOff atomic.Bool
 			if sc.Chatty {
 				// traffic from the server does not replace the client's own keep-alive
 				go func() {
@@ -356,6 +352,9 @@ func runC18(sc *c18Scenario) *Violation {
 						case <-stopChat:
 							return
 						case <-time.After(2 * time.Millisecond):
+							if chatOff.Load() {
+								continue
+							}
 							// (every other line is a PING of the server's own: answering those is no
 							// substitute for the client's keep-alive either)
 							if chatN++; chatN%2 == 0 {
@@ -374,13 +373,27 @@ func runC18(sc *c18Scenario) *Violation {
 			if !ok {
 				return violationf("C18", "PingFreq=20ms: fewer than 3 client PINGs in 30 s")
 			}
-			if quietPings >= 6 {
-				// same machine, same load, same length of time: what the server says in between must not
-				// thin out the client's keep-alive (a factor of three is left for scheduling noise)
-				p0 := countPings()
-				time.Sleep(250 * time.Millisecond)
-				if chatPings := countPings() - p0; chatPings*3 < quietPings {
-					return violationf("C18", "PingFreq=20ms: %d client PINGs in 250 ms of silence but only %d in 250 ms while the server was talking (PINGs and NOTICEs every few ms): the keep-alive must be sent periodically whatever else arrives", quietPings, chatPings)
+			if sc.Chatty && sc.Measure {
+				// Same machine, same load: three periods of server silence alternate with three periods of
+				// server chatter, 200 ms each, and the client's PINGs are counted in both. What the server says
+				// must not switch the keep-alive off. Only a near-total loss counts (<= 2 PINGs in 600 ms of
+				// chatter against >= 18 in 600 ms of silence): scheduling noise thins PINGs out, it does not
+				// remove them for one kind of period only.
+				quiet, chat := 0, 0
+				for round := 0; round < 3; round++ {
+					chatOff.Store(true)
+					time.Sleep(10 * time.Millisecond)
+					p0 := countPings()
+					time.Sleep(200 * time.Millisecond)
+					quiet += countPings() - p0
+					chatOff.Store(false)
+					time.Sleep(10 * time.Millisecond)
+					p0 = countPings()
+					time.Sleep(200 * time.Millisecond)
+					chat += countPings() - p0
+				}
+				if quiet >= 18 && chat <= 2 {
+					return violationf("C18", "PingFreq=20ms: %d client PINGs in 600 ms of server silence but %d in 600 ms (alternating periods) in which the server was talking (a PING or NOTICE every 2 ms): the keep-alive must be sent periodically whatever else arrives", quiet, chat)
 				}
 			}
 		default:
